@@ -4,7 +4,7 @@ use super::{Cfg, ChanEv, RouterWorld};
 use crate::wire::{Props, Tx};
 use rumqttd::verif::{Event, ShadowRequest};
 
-pub const BAD_KINDS: u8 = 17;
+pub const BAD_KINDS: u8 = 20;
 
 fn raw_publish_nonutf8() -> Vec<u8> {
     // PUBLISH QoS0, topic = [0xff, 0xfe], payload "x"
@@ -96,6 +96,30 @@ pub fn bad(w: &mut RouterWorld, cfg: &Cfg, ci: usize, kind: u8) {
                 vec![Tx::PingReq]
             } else {
                 vec![Tx::Raw(b.to_vec())]
+            }
+        }
+        17 => {
+            // v5: subscription identifier 0 is a protocol error
+            let pkid = next_pkid(w, ci);
+            if v5 {
+                vec![Tx::Subscribe { pkid, filters: vec![("a/b".into(), 1)], sub_id: Some(0) }, Tx::CloseMark]
+            } else {
+                vec![Tx::PingReq]
+            }
+        }
+        18 => {
+            // the second filter of one SUBSCRIBE is refused: the first is already prepared
+            let pkid = next_pkid(w, ci);
+            vec![Tx::Subscribe { pkid, filters: vec![("a/b".into(), 1), ("$SYS/x".into(), 0)], sub_id: None }, Tx::CloseMark]
+        }
+        19 => {
+            // v5: invalid alias on a QoS 2 publish (checked when the publish is received)
+            if v5 {
+                let pkid = next_pkid(w, ci);
+                let p = Props { alias: Some(0), ..Default::default() };
+                vec![Tx::Publish { topic: "a/b".into(), qos: 2, retain: false, dup: false, pkid, payload: b"q2a0".to_vec(), props: Some(p) }, Tx::CloseMark]
+            } else {
+                vec![Tx::PingReq]
             }
         }
         _ => {
